@@ -95,6 +95,18 @@ def cases(tier, seed):
             ops = config_ops(rnd, mem, ep, tier)
             cs.append(Case("emit-%d-%s-%s" % (mem, ep, mode.replace(":", "")), [ops[0], "rp.sinkmode " + mode] + ops[1:],
                            ("emit", "chunk-sink", ep, str(mem))))
+    # a TCP sink that is busy once (EAGAIN / EINTR, then takes the octet) at every position of a frame: everything goes
+    # through the retrying put, the wire must not show it
+    ops = [R.cfg(16, "tcp", 256)]
+    for mode in ("octet", "chunk:3"):
+        ops.append("rp.sinkmode " + mode)
+        for k in range(0, 26):
+            for e in ("eagain", "eintr"):
+                ops += ["rp.sinkbusy %d %s" % (k, e), "rp.req w16 192 3 c0dbdcdd0102"] + roundtrip()
+                ops += ["rp.sinkbusy %d %s" % (k, e), "rp.resp eunmapped 0 7 8 9"] + roundtrip()
+                ops += ["rp.sinkbusy %d %s" % (k, e), "rp.ack 0 5 6 2 a1a2a3a4"] + roundtrip()
+    ops.append("rp.sinkbusy never eagain")
+    cs.append(Case("sink-busy", ops, ("sink-busy",)))
     # sink that runs full while a frame is emitted: the error is passed on, nothing is invented
     ops = []
     for ep in ("serial", "tcp"):
